@@ -1568,9 +1568,12 @@ func (g *gen) groupPool(n int, steps int) {
 }
 
 // C03: the same operation on a text and on its cluster-for-cluster substitution
-var relSrc = []string{"a", "b", "c", "x", "y", "\u00e9", "e\u0301", "\uac01", "\u4e2d", "7", "Q", "k"}
+// Targets include the characters the library uses internally - the continuation hyphen and the
+// placeholder letter `A` of paragraph mode (seeded changes C03k, C03l) - but the SOURCES do not: a hyphen
+// Wrap adds, or a placeholder it leaks (known finding D4r), is the same literal in both runs.
+var relSrc = []string{"a", "b", "c", "x", "y", "\u00e9", "e\u0301", "\uac01", "\u4e2d", "7", "Q", "k", "_", "\u2010"}
 var relDst = []string{"e\u0301", "\U0001F468\u200d\U0001F469\u200d\U0001F467", "\U0001F1E9\U0001F1EA", "\u1100\u1161\u11a8",
-	"\U0001D11E", "\U0001F44D\U0001F3FD", "z", "\u00e9", "\u0915\u093f", "\u4e2d", "R", "9", "\uac01"}
+	"\U0001D11E", "\U0001F44D\U0001F3FD", "z", "\u00e9", "\u0915\u093f", "\u4e2d", "R", "9", "\uac01", "A", "-", "A\u0301"}
 
 type relText struct {
 	parts []string // clusters and whitespace/separator pieces
@@ -1668,12 +1671,41 @@ func (g *gen) groupRel(n int) {
 		o.TableBorders = g.chance(0.5)
 		o.PreserveParagraphs = g.chance(0.2)
 		t := g.relTextGen(ls, 4)
+		if o.PreserveParagraphs && g.chance(0.35) {
+			// a custom paragraph separator, also one with visible parts on the neighbouring lines
+			// (placeholders in Wrap/Justify/Align), between two or three pieces
+			o.ParagraphSeparator = []string{"<P>", " ~" + ls + "~ ", ls + "---" + ls, "--" + ls}[g.r.Intn(4)]
+			for k := 1 + g.r.Intn(2); k > 0; k-- {
+				t.parts = append(t.parts, o.ParagraphSeparator)
+				t.sub = append(t.sub, false)
+				x := g.relTextGen(ls, 2)
+				t.parts = append(t.parts, x.parts...)
+				t.sub = append(t.sub, x.sub...)
+			}
+		}
+		opk := g.r.Intn(16)
+		if opk >= 14 {
+			opk = 0
+		}
+		longWord := opk == 0 && g.chance(0.3)
+		if longWord {
+			// a word that has to be cut several times: which cluster stands at a cut must not matter
+			t.parts = append(t.parts, " ")
+			t.sub = append(t.sub, false)
+			for k := 8 + g.r.Intn(33); k > 0; k-- {
+				t.parts = append(t.parts, relSrc[g.r.Intn(len(relSrc))])
+				t.sub = append(t.sub, true)
+			}
+		}
 		cc := clusterCount(t.str(nil))
 		mk := func(f func(r map[string]string) string) (string, string) { return f(nil), f(rho) }
 		var s1, s2 string
-		switch g.r.Intn(14) {
+		switch opk {
 		case 0:
 			w := g.width()
+			if longWord {
+				w = 2 + g.r.Intn(8)
+			}
 			s1, s2 = mk(func(map[string]string) string { return fmt.Sprintf("wrap,%%d,%d,=", w) })
 		case 1:
 			w := g.width()
